@@ -271,7 +271,10 @@ struct String {
             const SizeT new_len = (Length() - len);
 
             setLength(new_len);
-            str[new_len] = Char_T{0};
+
+            if (str != nullptr) {
+                str[new_len] = Char_T{0};
+            }
         }
     }
 
